@@ -1347,13 +1347,12 @@ let telemetry_inc v tag0 t =
 let update_status v st tag0 t =
   if status_eqb t.t_status Cancelled
   then t
-  else let t1 =
-         if status_eqb st NotModified
-         then t
-         else { t_status = st; t_msg = t.t_msg; t_count = t.t_count; t_tags =
-                t.t_tags }
+  else let t1 = if status_eqb st Modified then telemetry_inc v tag0 t else t
        in
-       if status_eqb t1.t_status Modified then telemetry_inc v tag0 t1 else t1
+       if status_eqb st NotModified
+       then t1
+       else { t_status = st; t_msg = t1.t_msg; t_count = t1.t_count; t_tags =
+              t1.t_tags }
 
 type pstate = { p_ctr : n; p_idents : char list list; p_dup : bool }
 
@@ -2746,34 +2745,11 @@ let rec op_visit c fuel root n0 s =
           | _ -> default_visit root0 n1 s0)
        | _ -> default_visit root0 n1 s0)
     in
-    let Node (t, cs) = n0 in
+    let Node (t, _) = n0 in
     (match t with
-     | K (k, lo, hi) ->
+     | K (k, _, _) ->
        (match k with
         | KBlock -> Some (n0, s)
-        | KIf ->
-          (match cs with
-           | [] -> default_visit root n0 s
-           | test :: l ->
-             (match l with
-              | [] -> default_visit root n0 s
-              | cns :: l0 ->
-                (match l0 with
-                 | [] -> default_visit root n0 s
-                 | alt :: l1 ->
-                   (match l1 with
-                    | [] ->
-                      (match struct_level root test s with
-                       | Some p ->
-                         let (test', s1) = p in
-                         (match op_visit c f root cns s1 with
-                          | Some p0 ->
-                            let (cns', s2) = p0 in
-                            Some ((Node ((K (KIf, lo, hi)),
-                            (test' :: (cns' :: (alt :: []))))), s2)
-                          | None -> None)
-                       | None -> None)
-                    | _ :: _ -> default_visit root n0 s))))
         | KBin ->
           if plus_enabled c
           then (match default_visit false n0 s with
@@ -3000,10 +2976,9 @@ let rec op_visit c fuel root n0 s =
           (match optchain_transform c f n0 s.o_p with
            | Some p ->
              let (p0, p1) = p in
-             let (n1, modified) = p0 in
+             let (n1, _) = p0 in
              let s1 = o_with_p p1 s in
-             let s2 = if modified then o_update c Modified None s1 else s1 in
-             (match struct_level false n1 s2 with
+             (match struct_level false n1 s1 with
               | Some p2 -> let (n2, s3) = p2 in Some (n2, (o_leave root s3))
               | None -> None)
            | None -> None)
@@ -3308,9 +3283,9 @@ let rec op_visit c fuel root n0 s =
         | _ -> default_visit root n0 s)
      | _ -> default_visit root n0 s)
 
-(** val is_use_strict : node -> bool **)
+(** val can_precede_directive : node -> bool **)
 
-let is_use_strict = function
+let can_precede_directive = function
 | Node (t, cs) ->
   (match t with
    | K (k, _, _) ->
@@ -3319,35 +3294,13 @@ let is_use_strict = function
         (match cs with
          | [] -> false
          | n0 :: l ->
-           let Node (t0, cs0) = n0 in
+           let Node (t0, _) = n0 in
            (match t0 with
             | K (k0, _, _) ->
               (match k0 with
-               | KStr ->
-                 (match cs0 with
-                  | [] -> false
-                  | _ :: l0 ->
-                    (match l0 with
-                     | [] -> false
-                     | n1 :: l1 ->
-                       let Node (t1, cs1) = n1 in
-                       (match t1 with
-                        | Str raw ->
-                          (match cs1 with
-                           | [] ->
-                             (match l1 with
-                              | [] ->
-                                (match l with
-                                 | [] ->
-                                   (||)
-                                     (eqb0 raw
-                                       ('"'::('u'::('s'::('e'::(' '::('s'::('t'::('r'::('i'::('c'::('t'::('"'::[])))))))))))))
-                                     (eqb0 raw
-                                       ('\''::('u'::('s'::('e'::(' '::('s'::('t'::('r'::('i'::('c'::('t'::('\''::[])))))))))))))
-                                 | _ :: _ -> false)
-                              | _ :: _ -> false)
-                           | _ :: _ -> false)
-                        | _ -> false)))
+               | KStr -> (match l with
+                          | [] -> true
+                          | _ :: _ -> false)
                | _ -> false)
             | _ -> false))
       | _ -> false)
@@ -3355,9 +3308,10 @@ let is_use_strict = function
 
 (** val insertion_index : node list -> nat **)
 
-let insertion_index = function
+let rec insertion_index = function
 | [] -> O
-| s0 :: _ -> if is_use_strict s0 then S O else O
+| s0 :: rest ->
+  if can_precede_directive s0 then S (insertion_index rest) else O
 
 (** val insert_at : nat -> 'a1 list -> 'a1 list -> 'a1 list **)
 
